@@ -333,7 +333,7 @@ func TestVerif_C39_Ids(t *testing.T) {
 		}
 		run("dlistval", strings.Join(hs, ","))
 		js := "[" + strings.Join(quoted, ",") + "]"
-		switch r.Intn(9) {
+		switch r.Intn(11) {
 		case 0:
 			js = strings.Replace(js, ",", " , ", 1)
 		case 1:
@@ -346,6 +346,10 @@ func TestVerif_C39_Ids(t *testing.T) {
 			js = "[" + r.Pick("1", "null", `"x"`, "{}", `""`) + "," + js[1:]
 		case 5:
 			js = " " + js + "\n"
+		case 7: // whitespace / case variations inside the strings: not in the digest language
+			js = strings.Replace(js, `"sha256:`, r.Pick(`" sha256:`, `"\tsha256:`, `"Sha256:`, `"sha256 :`, `"sha256: `), 1)
+		case 8:
+			js = strings.Replace(js, `"]`, r.Pick(` "]`, `\n"]`, `\u0020"]`), 1)
 		case 6:
 			js = strings.Replace(js, `sha256:`, `\u0073ha256:`, 1)
 		}
